@@ -217,10 +217,15 @@ def run_sets(desc, prop, selector):
             sets.append(A.mkset(neg, ('p', name)))
             sets.append(A.mkset(neg, ('c', '_'), ('p', name)))
     sets += [A.mkset(False, ('r', '+', '0')), A.mkset(True, ('r', '0', '9')), A.mkset(False, ('r', '#', '~')), A.mkset(True, ('c', 'a')),
-             A.mkset(False, ('r', '.', '/')) if False else A.mkset(False, ('r', '-', '0')), A.mkset(False, ('c', '.'), ('p', 'punct'))]
+             A.mkset(False, ('r', '.', '/')) if False else A.mkset(False, ('r', '-', '0')), A.mkset(False, ('c', '.'), ('p', 'punct')),
+             # reversed ranges denote nothing: a bracket made only of them matches nothing, its negation any one character
+             # (which still is a bracket: no separator, no leading dot, no `.`/`..`)
+             A.mkset(True, ('r', 'b', 'a')), A.mkset(False, ('r', 'b', 'a')), A.mkset(True, ('r', '9', '0'), ('r', 'z', 'y')),
+             A.mkset(True, ('r', 'b', 'a'), ('c', 'x')), A.mkset(False, ('r', 'b', 'a'), ('c', 'x'))]
     shapes = [lambda x: (x,), lambda x: (A.lit('a'), x, A.lit('b')), lambda x: (A.lit('a'), x), lambda x: (x, A.lit('b')), lambda x: (A.STAR, x),
               lambda x: (x, A.STAR), lambda x: (A.ext('@', (x,)),), lambda x: (A.lit('a'), A.ext('*', (x,)), A.lit('b'))]
-    paths = ['a/b', '/', 'a/', '/b', 'a.b', 'a_b', 'axb', 'a', 'b', '_', '.', 'a//b', '/a', 'a/b/', 'x/a.b', 'a-b', 'a+b', 'a b', 'ab', '.b', 'a.']
+    paths = ['a/b', '/', 'a/', '/b', 'a.b', 'a_b', 'axb', 'a', 'b', '_', '.', 'a//b', '/a', 'a/b/', 'x/a.b', 'a-b', 'a+b', 'a b', 'ab', '.b', 'a.',
+             '..', 'x/.', 'x/..', '.ab', 'x/.b', '..b', '.x', 'x/.x', 'x', 'xb', '.a/b', '.xb']
     idx = 0
     for st_ in sets:
         for sh in shapes:
